@@ -492,16 +492,22 @@ def kf_tfs_partial_requirement(p: Dict[str, Any]) -> List[Tuple[int, int, int]]:
 
 
 def kf_framework_roundtrip(p: Dict[str, Any]) -> List[Tuple[int, int]]:
-    """(consumer sid, earlier step sid): an FG step that consumes a transform step although an earlier object of its own
-    framework class already lists the consumer's lookup uuid among its children (registry lookup returns that one)."""
+    """(consumer sid, other sid): the registry lookup CfwManager.get_cfw_uuid(class name, feature uuid) is ambiguous for a
+    consumer of a transform step: besides the object made by its transform step there is ANOTHER object of the same
+    framework class whose children_if_root (copied from the common source) contain the consumer's lookup uuid - either an
+    earlier feature-group object of that class (framework round trip A -> B -> A) or the object of a second transform step
+    into the same class (two group pairs converting the same source).  The first registered object wins."""
     out = []
     for c in p["steps"]:
         if c["kind"] != "FG" or not c["tfs_ids"]:
             continue
+        wc = _wait_closure(p, c)
         for r in p["steps"]:
-            if r is c or r["kind"] != "FG" or r["cfw"] != c["cfw"]:
+            if r is c:
                 continue
-            if c["any_uuid"] in r["children_if_root"] and r["sid"] in _wait_closure(p, c):
+            if r["kind"] == "FG" and r["cfw"] == c["cfw"] and c["any_uuid"] in r["children_if_root"] and r["sid"] in wc:
+                out.append((c["sid"], r["sid"]))
+            if r["kind"] == "TFS" and r["to_cfw"] == c["cfw"] and r["uuids"][0] not in c["req"] and r.get("link_id") is None:
                 out.append((c["sid"], r["sid"]))
     return out
 
